@@ -32,10 +32,10 @@ def programs(tier, rnd):
     two = [(['L'], ['L']), (['L'], ['F1']), (['L', 'F1'], ['L']), (['L'], ['F1', 'L']), (['L', 'L'], ['F1']),
            (['L', 'F1', 'L'], ['F1']), (['L', 'F2'], ['L', 'F1']), (['F1', 'L'], ['F1', 'L'])]
     for r0 in (0, 1, 2):
-        for a, b in two: P.append((r0, [a, b], 60 if tier == 'quick' else 100000))
+        for a, b in two: P.append((r0, [a, b], 35 if tier == 'quick' else 100000))
     three = [(['L'], ['L'], ['F1']), (['L'], ['F1'], ['F1']), (['L'], ['L'], ['L'])]
     for r0 in (0, 1):
-        for pr in three: P.append((r0, list(pr), 40 if tier == 'quick' else 100000))
+        for pr in three: P.append((r0, list(pr), 25 if tier == 'quick' else 100000))
     if tier != 'quick':
         for r0 in (0, 1, 2):
             P.append((r0, [['L', 'F1', 'L'], ['F1', 'L'], ['L', 'F2']], 100000))
@@ -47,7 +47,7 @@ def run_check(tier, seed):
     ev.cov['trusted_base'] = TRUSTED_COMMON + [
         'Model/Conc.v: hand-written small-step model of do_lookup / forget_one at the granularity of atomic operations and lock acquisitions; tied to the code by running real threads under a deterministic scheduler (verif hook yield points) and replaying every explored schedule in the model: yield-point trace, completed operations, final count must agree',
         'sequential consistency: the model interleaves atomic steps; Rust Acquire/AcqRel/Relaxed orderings on the single refcount location and the RwLock are assumed to give that (all shared accesses are RMWs on one location or under the lock) -- the property is PARTIAL with respect to weak memory',
-        'the scheduler can only switch threads at the 5 hook points; the CAS-failure path of forget_one (a lookup CAS between its load and CAS while the forget holds the lock) is covered by the theorems but cannot be driven by the harness',
+        'the scheduler switches threads at the 6 hook points; while a forget is paused between its load and its compare-exchange (it holds the write lock) only lock-free continuations of lookups are scheduled, so the forget CAS-retry path is driven too',
         'harness/src/bin/ptconc.rs and the verif_hooks module',
     ]
     ev.assumptions = ['one file, looked up through two hard-link names, forgets by its inode number', 'fewer than 2^64-1 lookups applied (no refcount saturation)']
@@ -64,7 +64,7 @@ def run_check(tier, seed):
     for r0, pr, mx in progs:
         script += 'r0 %d\n' % r0 + ''.join('thread %s\n' % ' '.join(p) for p in pr) + 'dfs %d\n' % mx
         # plus seeded random schedules (the truncated depth-first search only covers one corner)
-        for _ in range(5 if tier == 'quick' else 2000):
+        for _ in range(4 if tier == 'quick' else 2000):
             script += 'sched ' + ' '.join(str(rnd.randrange(len(pr))) for _ in range(24)) + '\n'
     sp = os.path.join(d, 'c09.txt'); open(sp, 'w').write(script)
     import time as _t; _t0 = _t.time()
